@@ -1,7 +1,32 @@
-import Driver.Util
-open Lean
+import Driver.TyJson
+open Lean Heph Heph.Ty
 namespace Driver.Types
 
-def handle : Handler := fun _ _ => none
+def handle : Handler := fun op j =>
+  let run (f : Array Ty → Except String Json) : Option (Except String Json) :=
+    some (do let tbl ← parseTable j; let r ← f tbl; pure (res r))
+  match op with
+  | "types.eq" => run fun tbl => do pure (Json.bool (beq (← tyAt tbl j "s") (← tyAt tbl j "t")))
+  | "types.subtype" => run fun tbl => do pure (resToJson (isSubtype (← tyAt tbl j "s") (← tyAt tbl j "t")))
+  | "types.assignable" => run fun tbl => do
+      pure (resToJson (isAssignable (← parsePairs j "extra") (← tyAt tbl j "s") (← tyAt tbl j "t")))
+  | "types.supertypes" => run fun tbl => do pure (tysToJson (closure (← tyAt tbl j "s")))
+  | "types.name" => run fun tbl => do pure (Json.str (getName (← tyAt tbl j "s")))
+  | "types.has_tv" => run fun tbl => do pure (Json.bool (hasTV (← tyAt tbl j "s")))
+  | "types.subst" => run fun tbl => do
+      pure (tyToJson (substituteType (← tyAt tbl j "s") (← parseTMap tbl j "m")))
+  | "types.new" => run fun tbl => do
+      let con ← tyAt tbl j "s"
+      let args ← tyListAt tbl j "args"
+      if args.length < (conParams con).length then pure (Json.str "IndexError")
+      else if args.length > (conParams con).length then pure (Json.str "AssertionError")
+      else pure (tyToJson (tconNew con args))
+  | "types.to_variance_free" => run fun tbl => do
+      pure (tyToJson (toVarianceFree (← tyAt tbl j "s") (← parseTMap tbl j "m")))
+  | "types.to_type_variable_free" => run fun tbl => do
+      pure (trToJson tyToJson (toTypeVariableFree (← tyAt tbl j "s") (← tyOptAt tbl j "any")))
+  | "types.bound_rec" => run fun tbl => do
+      pure (trToJson tyOptToJson (getBoundRec (← tyAt tbl j "s") (← tyOptAt tbl j "any")))
+  | _ => none
 
 end Driver.Types
